@@ -5,7 +5,7 @@ gaps where CSS allows whitespace/comments (around combinators and commas, the de
 parentheses and brackets, around the attribute operator, before the i/s flag, around the inner An+B sign, around 'of',
 both ends of the pattern), identifiers (characters as CSS escapes, ASCII case where names are case-insensitive) and
 string values (double/single quotes, bare identifier, escapes, escaped newline).  Enumerated: every single-site rewrite of
-every base, every pair of sites (quick: for bases with <= 7 sites; thorough: all), every triple for small bases (thorough).
+every base, every pair of sites (quick: for bases with <= 14 sites; thorough: all), every triple for small bases (thorough).
 Oracle: the respelling compiles, compile(variant).selectors == compile(base).selectors, and both select the same
 elements on a small corpus.
 """
@@ -68,7 +68,9 @@ def ident_alts(v, ci):
         if i != 0 and not first_safe:
             continue
         out.append(sp(i, 'hex'))
-        out.append(sp(i, 'six'))
+        if i != len(chars) - 1:
+            # a six-digit escape still swallows one following whitespace, so it is only safe before another identifier character
+            out.append(sp(i, 'six'))
         if chars[i] not in HEXCH and chars[i] not in '\n\r\f' and (first_safe or i == 0):
             out.append(sp(i, 'bs'))
         if ci and chars[i].isalpha():
@@ -100,7 +102,8 @@ def string_alts(v):
         out.append('"\\\n' + body + '"')
         mid = len(v) // 2
         out.append('"' + S.css_string(v[:mid])[1:-1] + '\\\r\n' + S.css_string(v[mid:])[1:-1] + '"')
-        out.append('"' + S.css_string(v[:mid])[1:-1] + esc_hex(v[mid], True) + S.css_string(v[mid + 1:])[1:-1] + '"')
+        if mid + 1 < len(v) and v[mid + 1] not in ' \t\n\r\f':
+            out.append('"' + S.css_string(v[:mid])[1:-1] + esc_hex(v[mid], True) + S.css_string(v[mid + 1:])[1:-1] + '"')
     seen, uniq = set(), []
     for x in out:
         if x not in seen:
@@ -279,7 +282,10 @@ def render(parts, choice=None):
             out.append(p[1])
         else:
             alts = site_alts(p)
-            out.append(alts[choice.get(i, 0)])
+            t = alts[choice.get(i, 0)]
+            if p == ('gap', 'flag') and t == '' and out and not out[-1].endswith(('"', "'")):
+                t = ' '         # 'v' directly followed by the flag would be one identifier 'vi': only legal after a quoted value
+            out.append(t)
     return ''.join(out)
 
 
@@ -346,13 +352,13 @@ def choices(nsites_alts, tier):
     for s in range(n):
         for a in range(1, nsites_alts[s]):
             yield ((s, a),)
-    if tier != 'quick' or n <= 7:
+    if tier != 'quick' or n <= 14:
         for s1, s2 in itertools.combinations(range(n), 2):
-            step = 1 if (tier != 'quick' or n <= 5) else 2
+            step = 1 if (tier != 'quick' or n <= 9) else 2
             for a1 in range(1, nsites_alts[s1], step):
                 for a2 in range(1, nsites_alts[s2], step):
                     yield ((s1, a1), (s2, a2))
-    if tier != 'quick' and n <= 5:
+    if tier != 'quick' and n <= 7:
         for s1, s2, s3 in itertools.combinations(range(n), 3):
             for a1, a2, a3 in itertools.product(range(1, nsites_alts[s1]), range(1, nsites_alts[s2]), range(1, nsites_alts[s3])):
                 yield ((s1, a1), (s2, a2), (s3, a3))
@@ -487,8 +493,8 @@ def replay(case):
 def check(tier, seed):
     res, info = shard.run(__name__, shards(tier, seed), order_seed=seed)
     cov = {
-        'rule': ('every base x every single-site rewrite, every two-site combination (quick: bases with <= 7 sites) and (thorough) every '
-                 'three-site combination for bases with <= 5 sites; non-trivial = the respelled text differs from the canonical text; '
+        'rule': ('every base x every single-site rewrite, every two-site combination (quick: bases with <= 14 sites) and (thorough) every '
+                 'three-site combination for bases with <= 7 sites; non-trivial = the respelled text differs from the canonical text; '
                  'choice vectors are distinct by construction'),
         'exhaustive': not info['cap_hit'],
         'bases': res.counters.get('bases'), 'rewrite_sites_total': res.counters.get('sites'),
